@@ -55,6 +55,8 @@ func vParam(name string, def int) int
 func vGo(f func())
 func vWait()
 func vSchedBound(n int)
+func vStop()
+func vRunUntilStop(f func()) bool
 `
 
 type Loaded struct {
